@@ -15,15 +15,19 @@ MTrees3 == VFAllTrees(3)
 MTrees4 == VFAllTrees(4)
 MTrees == UNION {VFAllTrees(n) : n \in 1..4}
 
-(* generation: every tree with 2..5 blocks, plus deeper hand-made shapes  *)
+(* generation: every tree with 2..6 blocks, plus deeper hand-made shapes  *)
 (* (long edges exercise the vote graph's compressed ancestry)             *)
-GTreesSmall == UNION {VFAllTrees(n) : n \in 2..5}
+GTreesSmall == UNION {VFAllTrees(n) : n \in 2..6}
 GTreesDeep == { <<0, 1, 2, 3, 4, 3, 6>>,        \* chain with a late fork
                 <<0, 1, 2, 2, 3, 4, 5, 6>>,     \* two long branches
                 <<0, 1, 1, 2, 3, 4, 5>>,        \* early fork, long arms
                 <<0, 1, 2, 3, 3, 4, 4, 5>>,     \* fork above a stem, second fork on one arm
                 <<0, 1, 2, 3, 4, 5, 6>> }       \* plain chain
 GTrees == GTreesSmall \cup GTreesDeep
+(* bushy trees: at least three leaves among 6 blocks (several descendant vote-nodes under *)
+(* one node, siblings below an unvoted intermediate block: the vote graph's merge points)  *)
+BLeaves(t) == {b \in 1..Len(t) : \A c \in 1..Len(t) : t[c] # b}
+GTreesBushy == {t \in VFAllTrees(6) : Cardinality(BLeaves(t)) >= 3}
 
 V3 == 1..3
 V4 == 1..4
